@@ -168,10 +168,11 @@ def prune_build_cache(keep_hours=48):
 FEAT = dict(PLANS='FFSM2_ENABLE_PLANS=', SER='FFSM2_ENABLE_SERIALIZATION=', HIST='FFSM2_ENABLE_TRANSITION_HISTORY=', LOG='FFSM2_ENABLE_LOG_INTERFACE=',
             VERBOSE='FFSM2_ENABLE_VERBOSE_DEBUG_LOG=', STRUCT='FFSM2_ENABLE_STRUCTURE_REPORT=', DBGTYPE='FFSM2_ENABLE_DEBUG_STATE_TYPE=', NOTYPEINDEX='FFSM2_DISABLE_TYPEINDEX=', ALL='FFSM2_ENABLE_ALL=')
 
-def cfg(N=3, HEAD=1, MANUAL=0, PAYLOAD=0, L=2, CAP=0, CTX=1, feats=(), INJ=None, BARE=0, extra=(), SPARSE=None):
+def cfg(N=3, HEAD=1, MANUAL=0, PAYLOAD=0, L=2, CAP=0, CTX=1, feats=(), INJ=None, BARE=0, extra=(), SPARSE=None, PLANCB=3):
     d = ['VX_N=%d' % N, 'VX_HEAD=%d' % HEAD, 'VX_MANUAL=%d' % MANUAL, 'VX_PAYLOAD=%d' % PAYLOAD, 'VX_L=%d' % L, 'VX_CAP=%d' % CAP, 'VX_CTX=%d' % CTX, 'VX_BARE=%d' % BARE]
     if INJ:
         for k, v in INJ.items(): d.append('VX_INJ_%s=%d' % (k, v))
+    if PLANCB != 3: d.append('VX_HEAD_PLANCB=%d' % PLANCB)
     if SPARSE: d += ['VX_SPARSE=%d' % SPARSE[0], 'VX_SPARSE_SHAPE=%d' % SPARSE[1]]
     d += [FEAT[f] for f in feats]
     d += list(extra)
@@ -236,6 +237,12 @@ class Verdict:
             m = _re.search(r'VX-INFLIGHT replay=(\S+)', run['stderr'])
             self.add_violation('call-did-not-return', '%s: an API call of the library did not return (stopped by the watchdog)' % run['name'], dict(kind='fsmx', config=cfgname, defs=defs, variant=runspec.get('variant', 'plain'), header=runspec.get('header', 'shipped'), replay=m.group(1) if m else '', props=['C%02d' % int(self.prop[1:])], flags=[]))
             return
+        if r is None and ('VX-CRASH' in run['stderr'] or run['rc'] == 78):
+            import re as _re
+            m = _re.search(r'VX-INFLIGHT replay=(\S+)', run['stderr'])
+            sig = _re.search(r'VX-CRASH: (.*)', run['stderr'])
+            self.add_violation('crash', '%s: %s (plain build; wild pointer or illegal operation inside a library call)' % (run['name'], sig.group(1) if sig else 'fatal signal'), dict(kind='fsmx', config=cfgname, defs=defs, variant=runspec.get('variant', 'plain'), header=runspec.get('header', 'shipped'), replay=m.group(1) if m else '', props=['C%02d' % int(self.prop[1:])], flags=[f for f in runspec.get('flags', []) if f in ('--replica', '--copy', '--copy-move')]))
+            return
         if r is None:
             # the explorer process itself died (sanitizer abort before workers were started, crash, timeout)
             self.errors.append('explorer run %s produced no result (rc=%s): %s' % (run['name'], run['rc'], run['stderr'][-1500:]))
@@ -256,7 +263,7 @@ class Verdict:
             for w in r['witnesses']:
                 if (w['property'] != mine and w['pred'] != 'crash') or w['pred'] in seen: continue   # a call that crashes or never returns is reported by whichever check was exploring it
                 seen.add(w['pred'])
-                rd = dict(kind='fsmx', config=cfgname, defs=defs, variant=runspec.get('variant', 'plain'), header=runspec.get('header', 'shipped'), replay=w['replay'], props=[mine], flags=[f for f in runspec.get('flags', []) if f in ('--replica', '--copy')])
+                rd = dict(kind='fsmx', config=cfgname, defs=defs, variant=runspec.get('variant', 'plain'), header=runspec.get('header', 'shipped'), replay=w['replay'], props=[mine], flags=[f for f in runspec.get('flags', []) if f in ('--replica', '--copy', '--copy-move')])
                 text = w['text']
                 if w['pred'] == 'crash':
                     rep = [l.strip() for l in run['stderr'].splitlines() if 'runtime error' in l or 'ERROR: ' in l or 'WARNING: MemorySanitizer' in l][:2]
